@@ -1,1 +1,201 @@
-From EpyV Require Import Model.Kernel.
+(* C06 - synchronous dynamics applies independent per-element trials each timestep.
+   Statements only; proofs are in Proofs/KernelSync.v and Proofs/Binomial.v.
+   For every world type W, every table (arbitrary user programs), every oracle, every fuel.
+   Level note: the probability laws are about [trial p] = {true: p, false: 1-p}; that a uniform
+   variate r satisfies r <= p with probability p is the (unproved) reading of the oracle. *)
+From Coq Require Import List ZArith QArith Bool Arith.
+From EpyV Require Import Model.Kernel Proofs.KernelMember Proofs.KernelSync Proofs.Binomial.
+Import ListNotations.
+Open Scope Q_scope.
+
+(* ---------------------------------------------------------------- C06_tranche_char *)
+(* allEventsInTimestep equals an explicit function of the loci at the call and of the two
+   oracle streams (spec_tranche: per-element events in registration order, then fixed-rate
+   events), and consumes exactly tranche_rands variates and tranche_draws ranks, nothing else
+   of the state changing ([advance]; an exhausted stream reads 0 and sets stuck). *)
+Theorem C06_tranche_char : forall W (tb : table W) (s : st W),
+  tranche tb s =
+  (spec_tranche tb (loci s) (rands s) (draws s),
+   advance (tranche_rands tb (loci s)) 0 (tranche_draws tb (loci s) (rands s) (draws s)) s).
+Proof. exact (@tranche_spec). Qed.
+
+(* the specification unfolded, so that it can be read here *)
+Theorem C06_spec_unfold : forall W (tb : table W) lc rs ds,
+  spec_tranche tb lc rs ds =
+    spec_elem lc (per_element tb) rs ++
+    spec_fixed lc (fixed_rate tb) (skipn (count_elem lc (per_element tb)) rs) ds /\
+  tranche_rands tb lc = (count_elem lc (per_element tb) + count_fixed lc (fixed_rate tb))%nat /\
+  tranche_draws tb lc rs ds =
+    length (spec_fixed lc (fixed_rate tb) (skipn (count_elem lc (per_element tb)) rs) ds) /\
+  (forall x evs rs', spec_elem lc (x :: evs) rs' =
+     spec_trials x (ev_p (snd x)) (block lc x) rs' ++ spec_elem lc evs (skipn (length (block lc x)) rs')) /\
+  (forall x evs, count_elem lc (x :: evs) = (length (block lc x) + count_elem lc evs)%nat) /\
+  (forall x, block lc x = if active lc x then lookup lc x else []) /\
+  (forall x, active lc x = true <-> lookup lc x <> [] /\ 0 < ev_p (snd x)) /\
+  (forall evs, count_fixed lc evs = length (filter (active lc) evs)).
+Proof.
+  intros W tb lc rs ds.
+  split; [reflexivity|]. split; [reflexivity|]. split; [reflexivity|]. split; [reflexivity|].
+  split; [reflexivity|]. split; [reflexivity|]. split; [exact (active_true lc) | reflexivity].
+Qed.
+
+(* per-element event x with probability p on elements els (the locus at the start of the step,
+   ascending): one variate per element in order, and exactly those with r <= p are selected *)
+Theorem C06_trials_filter : forall x p els rs, (length els <= length rs)%nat ->
+  spec_trials x p els rs =
+  map (fun er => (x, fst er)) (filter (fun er => Qle_bool (snd er) p) (combine els rs)).
+Proof. exact spec_trials_filter. Qed.
+
+Theorem C06_trials_model : forall W p x els (s : st W),
+  trials p x els s = (spec_trials x p els (rands s), advance (length els) 0 0 s).
+Proof. exact (@trials_spec). Qed.
+
+(* fixed-rate events: one variate per active event; iff r <= p, one rank selecting a member *)
+Theorem C06_fixed_step : forall lc x evs rs ds,
+  spec_fixed lc (x :: evs) rs ds =
+  if active lc x then
+    if Qle_bool (hd 0 rs) (ev_p (snd x))
+    then (x, nth (hd 0%nat ds mod length (lookup lc x)) (lookup lc x) (EN 0)) :: spec_fixed lc evs (tl rs) (tl ds)
+    else spec_fixed lc evs (tl rs) ds
+  else spec_fixed lc evs rs ds.
+Proof. reflexivity. Qed.
+
+(* at most one firing per fixed-rate event per step: the selected events are a subsequence of
+   the registered fixed-rate events *)
+Theorem C06_fixed_at_most_once : forall lc evs rs ds,
+  subseq (map fst (spec_fixed lc evs rs ds)) evs /\ (length (spec_fixed lc evs rs ds) <= length evs)%nat.
+Proof.
+  intros lc evs rs ds. split; [exact (spec_fixed_subseq lc evs rs ds)|].
+  rewrite <- (map_length fst). exact (subseq_length _ _ _ (spec_fixed_subseq lc evs rs ds)).
+Qed.
+
+(* in the loop: the tranche of a step is the specification applied to the state left by the
+   posted events of that step *)
+Theorem C06_step_tranche : forall W (tb : table W) pf t (s : st W),
+  sync_step tb pf t s =
+  let s1 := snd (run_pending tb pf t 0 (set_clock t s)) in
+  let n := fst (run_pending tb pf t 0 (set_clock t s)) in
+  fire_tranche tb t (spec_tranche tb (loci s1) (rands s1) (draws s1)) n
+    (advance (tranche_rands tb (loci s1)) 0 (tranche_draws tb (loci s1) (rands s1) (draws s1)) (set_clock t s1)).
+Proof. exact (@sync_step_eq). Qed.
+
+Theorem C06_loop_step : forall W (tb : table W) pf f t events steps (s : st W),
+  sync_loop tb pf (S f) t events steps s =
+  if at_equil tb t s then (t, events, steps, s)
+  else let '(nev, s3) := sync_step tb pf t s in
+       sync_loop tb pf f (Qred (t + 1)) (events + nev) (if (0 <? nev)%nat then S steps else steps) s3.
+Proof. exact (@sync_loop_S). Qed.
+
+(* ---------------------------------------------------------------- C06_clock, C06_posted_first *)
+(* A synchronous run is the set-up records followed by a sequence of steps; step k (from 0) has
+   time k+1; within a step the records of the posted events due by then (posted_rec t: posted
+   handlers and their taps with times <= t) all come before the records of the tranche
+   (tranche_rec t: handlers entered at time t with clock t on members, taps at t of registered
+   events with positive probability).  The reported time is 1 + the number of executed steps,
+   the event count is the number of handlers entered, and a run that is not stuck ended because
+   atEquilibrium held. *)
+Theorem C06_run_structure : forall W (tb : table W) pf fuel rs ds, exists steps,
+  let r := sync_run tb pf fuel rs ds in
+  r_out r = rev (out (setup_state tb rs [] ds)) ++ flat steps /\
+  steps_ok tb 1 steps /\
+  r_time r = inject_Z (Z.of_nat (S (length steps))) /\
+  r_events r = total_events steps /\
+  r_steps r = busy_steps steps /\
+  (r_stuck r = false -> at_equil tb (r_time r) (r_final r) = true).
+Proof. exact (@sync_run_spec). Qed.
+
+Theorem C06_steps_unfold : forall W (tb : table W) t ti lp lt rest,
+  (steps_ok tb t ((ti, lp, lt) :: rest) <->
+   ti = t /\ Qle_bool (t_maxtime tb) t = false /\
+   Forall (posted_rec t) lp /\ Forall (tranche_rec tb t) lt /\ steps_ok tb (Qred (t + 1)) rest) /\
+  flat ((ti, lp, lt) :: rest) = (lp ++ lt) ++ flat rest.
+Proof. intros. split; [reflexivity | reflexivity]. Qed.
+
+Theorem C06_clock : forall W (tb : table W) steps k x, steps_ok tb 1 steps -> nth_error steps k = Some x ->
+  fst (fst x) = inject_Z (Z.of_nat (S k)) /\
+  Forall (posted_rec (inject_Z (Z.of_nat (S k)))) (snd (fst x)) /\
+  Forall (tranche_rec tb (inject_Z (Z.of_nat (S k)))) (snd x).
+Proof.
+  intros W tb steps k x H E. destruct (steps_ok_nth tb steps 1 k x H E) as (H1 & _ & H3 & H4).
+  assert (T : time_after 1 k = inject_Z (Z.of_nat (S k))).
+  { change 1 with (inject_Z 1). rewrite time_after_inject. f_equal. rewrite Nat2Z.inj_succ. apply Z.add_1_l. }
+  rewrite T in *. split; [exact H1 | split; assumption].
+Qed.
+
+(* the successive step times are 1, 2, 3, ... exactly (no rounding in the model) *)
+Theorem C06_clock_times : forall n z, time_after (inject_Z z) n = inject_Z (z + Z.of_nat n).
+Proof. exact time_after_inject. Qed.
+
+(* one step: posted events first (lp is older than lt; out is newest first), counts add up *)
+Theorem C06_posted_first : forall W (tb : table W) pf t (s : st W), exists lp lt,
+  out (snd (sync_step tb pf t s)) = lt ++ lp ++ out s /\
+  Forall (posted_rec t) lp /\ Forall (tranche_rec tb t) lt /\
+  fst (sync_step tb pf t s) = (nposted lp + nfired lt)%nat.
+Proof. exact (@sync_step_spec). Qed.
+
+(* ---------------------------------------------------------------- the probability laws *)
+(* number of successes of n independent trials of probability p *)
+Theorem C06_binomial : forall n p k,
+  prob (Nat.eqb k) (successes n p) == qn (binom n k) * qpow p k * qpow (1 - p) (n - k).
+Proof. exact binomial_law. Qed.
+
+(* Pascal's numbers are n! / (k! (n-k)!) *)
+Theorem C06_binom_fact : forall n k, (k <= n)%nat -> (binom n k * (fact k * fact (n - k)) = fact n)%nat.
+Proof. exact binom_fact. Qed.
+
+(* an isolated element, one trial per step: first selected at step k *)
+Theorem C06_geometric : forall n p k, (1 <= k <= n)%nat ->
+  prob (is_some_k k) (first_success n p) == qpow (1 - p) (k - 1) * p.
+Proof. exact geometric_law. Qed.
+
+Theorem C06_geometric_never : forall n p,
+  prob (fun r => match r with None => true | Some _ => false end) (first_success n p) == qpow (1 - p) n.
+Proof. exact geometric_none. Qed.
+
+(* connection to the model: the selection depends on each variate only through [r <= p], picks the
+   elements at the successful positions, and selects as many as there are successes; with the
+   outcomes distributed as independent trials the number selected from a locus of size n is
+   binomial(n, p) *)
+Theorem C06_trials_outcomes : forall x p els rs,
+  spec_trials x p els rs = map (pair x) (pick (outcomes p (length els) rs) els) /\
+  length (spec_trials x p els rs) = ntrue (outcomes p (length els) rs).
+Proof. intros. split; [apply spec_trials_pick | apply spec_trials_count]. Qed.
+
+Theorem C06_selected_binomial : forall (x : xev) p els k,
+  prob (fun sel => Nat.eqb k (length sel)) (selected_dist x p els) ==
+  qn (binom (length els) k) * qpow p k * qpow (1 - p) (length els - k).
+Proof. intros. exact (selected_binomial xev x p els k). Qed.
+
+(* ---------------------------------------------------------------- non-vacuity *)
+(* locus 0 = {1,2,3} with a per-element event of probability 1/2; locus 1 = {7,8} with a
+   fixed-rate event of probability 1/4; a posted event due at 3/2 *)
+Definition ex_tb : table unit :=
+  {| t_maxtime := 3; t_loci := [(0%nat, [EN 1; EN 2; EN 3]); (0%nat, [EN 7; EN 8])];
+     t_procs := [{| p_events := [ {| ev_elem := true; ev_locus := 0; ev_p := 1#2; ev_prog := 0 |};
+                                  {| ev_elem := false; ev_locus := 1; ev_p := 1#4; ev_prog := 1 |} ];
+                    p_setup := [APost (3#2) 2%nat] |}];
+     t_progs := [static []; static []; static [AObserve]];
+     t_world := tt; t_equil := fun _ _ => false |}.
+
+(* trial values 1/4, 3/4, 1/2 against p = 1/2 select 1 and 3 (r = p counts); then 1/4 <= 1/4
+   fires the fixed-rate event on the member of rank 3 mod 2.  In step 2 the posted event runs
+   before the (empty) tranche. *)
+Example C06_example :
+  let ev0 := {| ev_elem := true; ev_locus := 0; ev_p := 1#2; ev_prog := 0 |} in
+  let ev1 := {| ev_elem := false; ev_locus := 1; ev_p := 1#4; ev_prog := 1 |} in
+  fst (tranche ex_tb (setup_state ex_tb [1#4; 3#4; 1#2; 1#4] [] [3%nat])) =
+    [(0%nat, 0%nat, ev0, EN 1); (0%nat, 0%nat, ev0, EN 3); (0%nat, 1%nat, ev1, EN 8)] /\
+  let r := sync_run ex_tb 10 10 [1#4; 3#4; 1#2; 1#4; 1; 1; 1; 1] [3%nat] in
+  r_out r = [OPosted 0 (3 # 2); OHandler 0 1 1 (EN 1) (Some true);
+             OTap 1 0 (NEv 0 0) (EN 1); OHandler 0 1 1 (EN 3) (Some true);
+             OTap 1 0 (NEv 0 0) (EN 3); OHandler 1 1 1 (EN 8) (Some true);
+             OTap 1 0 (NEv 0 1) (EN 8); OHandler 2 (3 # 2) (3 # 2) (EN 0) None;
+             OObserve (3 # 2) [3%nat; 2%nat]; OTap (3 # 2) 0 (NPost 2) (EN 0)] /\
+  r_time r = 3 /\ r_events r = 4%nat /\ r_steps r = 2%nat /\ r_stuck r = false.
+Proof. cbv zeta. repeat split; vm_compute; reflexivity. Qed.
+
+Example C06_example_laws :
+  prob (Nat.eqb 2) (successes 3 (1#3)) == 2 # 9 /\
+  qn (binom 3 2) * qpow (1#3) 2 * qpow (1 - (1#3)) (3 - 2) == 2 # 9 /\
+  prob (is_some_k 3) (first_success 5 (1#3)) == 4 # 27.
+Proof. repeat split; vm_compute; reflexivity. Qed.
